@@ -183,7 +183,7 @@ func (env *SpecEnv) state() *State {
 var ghostGroups = map[string][]string{
 	"out": {"#out", "#outlen", "#wfails"},
 	"ev":  {"#evn", "#evk", "#eva", "#evb", "#evc", "#evl", "#vfail", "#verr#typ", "#verr#val", "#depth"},
-	"in":  {"#in", "#inpos", "#inlen", "#ineof", "#rdzero"},
+	"in":  {"#in", "#inpos", "#inlen", "#ineof", "#rdzero", "#rdcount", "#rdn"},
 }
 
 func (env *SpecEnv) ident(name string) SVal {
@@ -1086,6 +1086,17 @@ func (env *SpecEnv) callExpr(x *ast.CallExpr) SVal {
 			cs = append(cs, vc.sel(vc.get(env.state(), fam), pv.C[0]))
 		}
 		return SVal{T: st, C: cs}
+	case "ifaceAt":
+		// ifaceAt(p): the interface{} value stored at the address held in p
+		pv := arg(0)
+		it := types.NewInterfaceType(nil, nil)
+		var cs []Term
+		for _, l := range leaves(it) {
+			fam := family(it, l.key())
+			vc.regFam(fam, l.Sort)
+			cs = append(cs, vc.sel(vc.get(env.state(), fam), pv.C[0]))
+		}
+		return SVal{T: it, C: cs}
 	case "boxed":
 		// boxed(i): the scalar held by the interface value i (meaningful together with typeIs)
 		iv := arg(0)
